@@ -1,11 +1,14 @@
 package main
 
+import "golang.org/x/tools/go/ssa"
+
 func init() {
 	register(&PropInfo{
 		ID:    "C01",
 		Title: "Expressions follow the precedence table, left associativity and typed arithmetic",
 		Rules: []string{
 			"R-PRATT: the operator model extracted from parser.go (precedences, registrations, binding powers per parse method, loop comparison) groups every operator sequence of <= 3 operators exactly as the specification grammar of C01",
+			"R-DIVGUARD: every integer / and % on the render path has a divisor that is a non-zero constant or is dominated by the non-zero edge of a comparison with 0",
 			"R-PRATT-SITES: every parseExpression call that is not an operator's open operand passes the lowest level (complete-expression positions)",
 		},
 		Decided:     "TODO",
@@ -14,6 +17,16 @@ func init() {
 		Run: func(m *Model, s *Sink) {
 			m.RunPratt(s, "R-PRATT")
 			m.RunCompleteExprSites(s, "R-PRATT-SITES")
+			// integer / and % in the typed evaluators are guarded
+			var evalFns []*ssa.Function
+			for _, fn := range m.reachableFns(m.Roots().Render) {
+				if shortPkg(fnPkgPath(fn)) == "evaluator" {
+					evalFns = append(evalFns, fn)
+				}
+			}
+			bc := m.newBoundsChecker(NewSink())
+			bc.s = s
+			bc.RunDivOnly("R-DIVGUARD", evalFns)
 		},
 	})
 }
